@@ -243,7 +243,7 @@ Section Archive.
   Variable slices : N -> option (list pobj).
   Variable sliceaware : bool.
   Variable rev0ok : bool.
-  Let objs := seen_objects slices sliceaware.
+  Let objs := seen_objects_sh slices sliceaware.
 
   Lemma ensure_paused_true st mem s st' mem' :
     ensure_paused fault st mem s = (st', mem', true) -> is_status_paused s = true /\ st' = st /\ mem' = mem.
@@ -269,11 +269,11 @@ Section Archive.
   Qed.
 
   Lemma intermediate_true st mem prev cur st' mem' :
-    intermediate fault slices sliceaware st mem prev cur = (st', mem', true) ->
+    intermediate_sh fault slices sliceaware st mem prev cur = (st', mem', true) ->
     is_status_paused prev = true /\ is_available prev = false /\
     exists act, active_objects prev = Some act /\ is_nil (inter_keys (objs cur) act) = true.
   Proof.
-    unfold intermediate. destruct (active_objects prev) as [act|]; [|discriminate].
+    unfold intermediate_sh. destruct (active_objects prev) as [act|]; [|discriminate].
     fold objs. destruct (is_nil (inter_keys (objs cur) act)) eqn:Ei; cbn [andb]; [|discriminate].
     destruct (is_available prev); cbn [negb]; [discriminate|]. intros H. apply ensure_paused_true in H.
     split; [tauto|]. split; [reflexivity|]. exists act. auto.
@@ -281,18 +281,18 @@ Section Archive.
 
   (** objectSetsToBeArchived only names archivable revisions: for every chain, any length, any flags. *)
   Lemma to_archive_sound : forall rl st mem st' mem' l,
-    to_archive fault slices sliceaware st mem rl = (st', mem', l) -> forall n, In n l -> cand objs rl n.
+    to_archive_sh fault slices sliceaware st mem rl = (st', mem', l) -> forall n, In n l -> cand objs rl n.
   Proof.
     induction rl as [|cur rest IH]; intros st mem st' mem' l H n Hn; [cbn in H; injection H as _ _ <-; contradiction|].
-    cbn [to_archive] in H. destruct (is_available cur) eqn:Eav.
+    cbn [to_archive_sh] in H. destruct (is_available cur) eqn:Eav.
     - destruct (archive_all_later_sound _ _ _ _ _ _ _ H n Hn) as (p & Hp & Hnm & Ha & Hr & Hsp).
       apply in_rev in Hp. apply in_split in Hp. destruct Hp as (a & b & ->).
       exists (cur :: a), p, b. repeat split; auto; [discriminate|]. left. exists cur. split; [now left|auto].
     - destruct rest as [|prev rest']; [injection H as _ _ <-; contradiction|].
       destruct (is_archived prev) eqn:Ea; [apply cand_cons; eapply IH; eauto|].
       destruct (srev cur <=? srev prev)%Z eqn:Er; [apply cand_cons; eapply IH; eauto|].
-      destruct (intermediate fault slices sliceaware st mem prev cur) as [[st1 mem1] b] eqn:Ei.
-      destruct (to_archive fault slices sliceaware st1 mem1 (prev :: rest')) as [[st2 mem2] l2] eqn:Et. injection H as _ _ <-.
+      destruct (intermediate_sh fault slices sliceaware st mem prev cur) as [[st1 mem1] b] eqn:Ei.
+      destruct (to_archive_sh fault slices sliceaware st1 mem1 (prev :: rest')) as [[st2 mem2] l2] eqn:Et. injection H as _ _ <-.
       assert (Hin : (b = true /\ n = sname prev) \/ In n l2).
       { destruct b; [destruct Hn as [<-|Hn]; [left; auto|now right]|now right]. }
       destruct Hin as [[-> ->]|Hin]; [|apply cand_cons; eapply IH; eauto].
@@ -302,7 +302,7 @@ Section Archive.
   Qed.
 
   Theorem archive_kernel_sound L st mem st' mem' l :
-    to_archive fault slices sliceaware st mem (rev L) = (st', mem', l) -> forall n, In n l -> archivable objs L n.
+    to_archive_sh fault slices sliceaware st mem (rev L) = (st', mem', l) -> forall n, In n l -> archivable objs L n.
   Proof. intros H n Hn. apply cand_archivable. eapply to_archive_sound; eauto. Qed.
 End Archive.
 
@@ -335,12 +335,12 @@ Proof.
   unfold sname, is_status_paused, is_available, active_objects in *. rewrite Hid, Hc, Ha, Hco, Hcs. repeat split; auto.
 Qed.
 
-Lemma seen_objects_core slices sliceaware a b : same_core a b -> seen_objects slices sliceaware a = seen_objects slices sliceaware b.
+Lemma seen_objects_core slices sliceaware a b : same_core a b -> seen_objects_sh slices sliceaware a = seen_objects_sh slices sliceaware b.
 Proof.
   intros (Hid & Hr & Hc & Ha & Hco & Hcs & Hph & Hh).
   assert (Eobj : set_objects a = set_objects b).
   { unfold set_objects, all_objects. rewrite Hph. apply map_ext. intros p. unfold spec_key, desired_key, as_owner. cbn. now rewrite Hid. }
-  unfold seen_objects, full_objects, slice_refs, all_objects. destruct sliceaware; [|assumption]. rewrite Eobj, Hph. f_equal.
+  unfold seen_objects_sh, full_objects, slice_refs, all_objects. destruct sliceaware; [|assumption]. rewrite Eobj, Hph. f_equal.
   apply flat_map_ext. intros n. destruct (slices n); [|reflexivity]. apply map_ext. intros p. unfold spec_key, desired_key, as_owner. cbn. now rewrite Hid.
 Qed.
 
@@ -487,16 +487,16 @@ Section PassEvents.
   Qed.
 
   Lemma to_archive_news : forall rl st mem st' mem' l,
-    to_archive fault slices sliceaware st mem rl = (st', mem', l) -> exists es, news st st' es /\ Forall ens_ev es.
+    to_archive_sh fault slices sliceaware st mem rl = (st', mem', l) -> exists es, news st st' es /\ Forall ens_ev es.
   Proof.
     induction rl as [|cur rest IH]; intros st mem st' mem' l H; [cbn in H; injection H as <- _ _; exists []; split; [apply news_refl|constructor]|].
-    cbn [to_archive] in H. destruct (is_available cur); [eapply archive_all_later_news; eauto|].
+    cbn [to_archive_sh] in H. destruct (is_available cur); [eapply archive_all_later_news; eauto|].
     destruct rest as [|prev rest']; [injection H as <- _ _; exists []; split; [apply news_refl|constructor]|].
     destruct (is_archived prev); [eapply IH; eauto|]. destruct (srev cur <=? srev prev)%Z; [eapply IH; eauto|].
-    destruct (intermediate fault slices sliceaware st mem prev cur) as [[st1 mem1] b] eqn:Ei.
-    destruct (to_archive fault slices sliceaware st1 mem1 (prev :: rest')) as [[st2 mem2] l2] eqn:Et. injection H as <- _ _.
+    destruct (intermediate_sh fault slices sliceaware st mem prev cur) as [[st1 mem1] b] eqn:Ei.
+    destruct (to_archive_sh fault slices sliceaware st1 mem1 (prev :: rest')) as [[st2 mem2] l2] eqn:Et. injection H as <- _ _.
     assert (H1 : exists es, news st st1 es /\ Forall ens_ev es).
-    { unfold intermediate in Ei.
+    { unfold intermediate_sh in Ei.
       set (st0 := if sliceaware then load_slices_req fault slices st cur else st) in Ei.
       assert (H0 : p_evs st0 = p_evs st) by (unfold st0; destruct sliceaware; [apply load_slices_req_same|reflexivity]).
       assert (Hnil : exists es, news st st0 es /\ Forall ens_ev es) by (exists []; split; [unfold news; now rewrite H0, app_nil_r|constructor]).
@@ -558,14 +558,14 @@ Section PassEvents.
   (** Every event of the archive reconciler: a pause request, the archival of an archivable revision, or a
       garbage-collection delete of one of the oldest revisions beyond the limit. *)
   Definition archive_ev (d : depl) (mem : list dset) (e : dev) : Prop :=
-    ens_ev e \/ (exists n pbp r, e = DUpdate n LArchived pbp r /\ archivable (seen_objects slices sliceaware) mem n) \/ gc_ev d (map sname (removelast mem)) e.
+    ens_ev e \/ (exists n pbp r, e = DUpdate n LArchived pbp r /\ archivable (seen_objects_sh slices sliceaware) mem n) \/ gc_ev d (map sname (removelast mem)) e.
 
   Lemma archive_news st d has_cur mem st' mem' :
-    archive fault slices sliceaware st d has_cur mem = (st', mem') ->
+    archive_sh fault slices sliceaware st d has_cur mem = (st', mem') ->
     exists es, news st st' es /\ (has_cur = false -> es = []) /\ Forall (archive_ev d mem) es.
   Proof.
-    unfold archive. destruct has_cur; cbn [negb].
-    - destruct (to_archive fault slices sliceaware st mem (rev mem)) as [[st1 mem1] names] eqn:Et. intros Hm.
+    unfold archive_sh. destruct has_cur; cbn [negb].
+    - destruct (to_archive_sh fault slices sliceaware st mem (rev mem)) as [[st1 mem1] names] eqn:Et. intros Hm.
       destruct (to_archive_news _ _ _ _ _ _ Et) as (e1 & H1 & F1). destruct (mark_news _ _ _ _ _ _ _ Hm) as (e2 & H2 & F2).
       exists (e1 ++ e2). split; [eapply news_trans; eauto|]. split; [discriminate|]. apply Forall_app. split.
       + eapply Forall_impl; [|exact F1]. intros e He. now left.
@@ -647,7 +647,7 @@ Section PassTheorems.
   Definition has_rev0 (L : list dset) : bool := existsb (fun s => Z.eqb (srev s) 0) L.
 
   Lemma dep_pass_unfold stale w w' evs r :
-    dep_pass hash fault slices sliceaware rev0ok stale w = (w', evs, r) ->
+    dep_pass_sh hash fault slices sliceaware rev0ok stale w = (w', evs, r) ->
     let L := listed stale w in let d1 := dep_hashed w in let hc := has_current d1 L in
     exists st3 d2,
       evs = p_evs (status_req fault st3 d2) /\
@@ -658,11 +658,11 @@ Section PassTheorems.
         exists stp mem, pause_loop fault (st_listed w) (d_paused d1) L = (stp, mem) /\
           ((d_paused d1 = true /\ st3 = stp /\ d2 = set_status d1 (fst (split_current hc mem)) (snd (split_current hc mem))) \/
            (d_paused d1 = false /\ exists sta d3 mem',
-              new_revision fault rev0ok stp d1 (fst (split_current hc mem)) (snd (split_current hc mem)) = (sta, d3) /\
-              archive fault slices sliceaware sta d3 hc mem = (st3, mem') /\
+              new_revision_sh fault rev0ok stp d1 (fst (split_current hc mem)) (snd (split_current hc mem)) = (sta, d3) /\
+              archive_sh fault slices sliceaware sta d3 hc mem = (st3, mem') /\
               d2 = set_status d3 (fst (split_current hc mem')) (snd (split_current hc mem')))))).
   Proof.
-    unfold dep_pass. fold (st_init w). fold (st_listed w). fold (dep_hashed w). fold (has_rev0 (listed stale w)). cbv zeta.
+    unfold dep_pass_sh. fold (st_init w). fold (st_listed w). fold (dep_hashed w). fold (has_rev0 (listed stale w)). cbv zeta.
     destruct (has_rev0 (listed stale w)) eqn:E0.
     - intros H. injection H as <- <- <-. exists (st_listed w), (dep_hashed w). repeat split. now left.
     - destruct (pause_loop fault (st_listed w) (d_paused (dep_hashed w)) (listed stale w)) as [stp mem] eqn:Ep.
@@ -671,8 +671,8 @@ Section PassTheorems.
         eexists stp, _. repeat split. right. split; [reflexivity|]. exists stp, mem. split; [reflexivity|]. left.
         rewrite Es. auto.
       + destruct (split_current _ mem) as [cur prev] eqn:Es.
-        destruct (new_revision fault rev0ok stp (dep_hashed w) cur prev) as [sta d3] eqn:En.
-        destruct (archive fault slices sliceaware sta d3 _ mem) as [stb mem'] eqn:Ea.
+        destruct (new_revision_sh fault rev0ok stp (dep_hashed w) cur prev) as [sta d3] eqn:En.
+        destruct (archive_sh fault slices sliceaware sta d3 _ mem) as [stb mem'] eqn:Ea.
         destruct (split_current _ mem') as [cur' prev'] eqn:Es'. intros H. injection H as <- <- <-.
         eexists stb, _. repeat split. right. split; [reflexivity|]. exists stp, mem. split; [reflexivity|]. right.
         split; [reflexivity|]. exists sta, d3, mem'. rewrite Es, Es'. cbn [fst snd]. auto.
@@ -687,13 +687,13 @@ Section PassTheorems.
   Qed.
 
   Lemma new_revision_spec st d cur prev st' d' :
-    new_revision fault rev0ok st d cur prev = (st', d') ->
+    new_revision_sh fault rev0ok st d cur prev = (st', d') ->
     exists es, news st st' es /\
       (es = [] \/ exists r, es = [DCreate (d_hash d) (d_phases d) (map sname prev) (d_hash d) r] /\ cur = None /\ d_phases d <> []) /\
       (d' = d \/ (d' = set_cc d (bump_cc (d_cc d)) /\ cur = None /\
                   es = [DCreate (d_hash d) (d_phases d) (map sname prev) (d_hash d) CrExists])).
   Proof.
-    unfold new_revision. destruct cur as [c|]; [intros H; injection H as <- <-; exists []; split; [apply news_refl|]; split; now left|].
+    unfold new_revision_sh. destruct cur as [c|]; [intros H; injection H as <- <-; exists []; split; [apply news_refl|]; split; now left|].
     destruct (d_phases d) as [|ph phs] eqn:Eph; cbn [is_nil]; [intros H; injection H as <- <-; exists []; split; [apply news_refl|]; split; now left|].
     destruct (create_req fault st (new_set d prev)) as [st1 r] eqn:Ec.
     assert (Hne : d_phases d <> []) by (rewrite Eph; discriminate). rewrite <- Eph.
@@ -705,7 +705,7 @@ Section PassTheorems.
         by (right; exists r; auto).
       destruct r; try (intros H; injection H as <- <-; eexists; split; [exact Hn|]; split; [exact Hes|now left]).
       destruct (find_dset (dw_sets (p_w (read_req fault st1))) (d_hash d)) as [c|].
-      + destruct (adoptable rev0ok d prev c); intros H; injection H as <- <-; eexists;
+      + destruct (adoptable_sh rev0ok d prev c); intros H; injection H as <- <-; eexists;
           (split; [unfold news in *; rewrite read_req_evs; exact Hn|]); (split; [exact Hes|]); [now left|right; auto].
       + intros H; injection H as <- <-. eexists. split; [unfold news in *; rewrite read_req_evs; exact Hn|]. split; [exact Hes|now left].
   Qed.
@@ -721,7 +721,7 @@ Section PassTheorems.
     | DUpdate n life pbp r =>
         norev0 /\
         match life with
-        | LArchived => d_paused d = false /\ has_current d1 L = true /\ archivable (seen_objects slices sliceaware) L n
+        | LArchived => d_paused d = false /\ has_current d1 L = true /\ archivable (seen_objects_sh slices sliceaware) L n
         | LActive => d_paused d = false /\ pbp = false /\
                      exists s, In s L /\ sname s = n /\ is_archived s = false /\ paused_by_parent s = true
         | LPaused => if d_paused d
@@ -755,7 +755,7 @@ Section PassTheorems.
 
   Theorem dep_pass_justified stale w w' evs r :
     NoDup (map sname (dw_sets w)) ->
-    dep_pass hash fault slices sliceaware rev0ok stale w = (w', evs, r) -> Forall (justified stale w) evs.
+    dep_pass_sh hash fault slices sliceaware rev0ok stale w = (w', evs, r) -> Forall (justified stale w) evs.
   Proof.
     intros Hnd Hp. destruct (dep_pass_unfold _ _ _ _ _ Hp) as (st3 & d2 & -> & _ & _ & Hc).
     destruct (status_req_news st3 d2) as (es & Hn & Hes). rewrite Hn.
@@ -812,7 +812,7 @@ Section PassTheorems.
 
   (** ** C07, pass level *)
   Theorem create_justified stale w w' evs r n phs prev h cr :
-    NoDup (map sname (dw_sets w)) -> dep_pass hash fault slices sliceaware rev0ok stale w = (w', evs, r) -> In (DCreate n phs prev h cr) evs ->
+    NoDup (map sname (dw_sets w)) -> dep_pass_sh hash fault slices sliceaware rev0ok stale w = (w', evs, r) -> In (DCreate n phs prev h cr) evs ->
     d_paused (dw_dep w) = false /\ d_phases (dw_dep w) <> [] /\ (forall s, In s (listed stale w) -> srev s <> 0%Z) /\
     has_current (dep_hashed w) (listed stale w) = false /\
     n = hash (d_digest (dw_dep w)) (d_cc (dw_dep w)) /\ h = n /\ phs = d_phases (dw_dep w) /\ prev = map sname (listed stale w).
@@ -823,18 +823,18 @@ Section PassTheorems.
 
   (** ** C08, pass level *)
   Theorem archive_sound stale w w' evs r n pbp ur :
-    NoDup (map sname (dw_sets w)) -> dep_pass hash fault slices sliceaware rev0ok stale w = (w', evs, r) -> In (DUpdate n LArchived pbp ur) evs ->
-    d_paused (dw_dep w) = false /\ archivable (seen_objects slices sliceaware) (listed stale w) n.
+    NoDup (map sname (dw_sets w)) -> dep_pass_sh hash fault slices sliceaware rev0ok stale w = (w', evs, r) -> In (DUpdate n LArchived pbp ur) evs ->
+    d_paused (dw_dep w) = false /\ archivable (seen_objects_sh slices sliceaware) (listed stale w) n.
   Proof.
     intros Hnd Hp Hin. pose proof (dep_pass_justified _ _ _ _ _ Hnd Hp) as HF. rewrite Forall_forall in HF.
     specialize (HF _ Hin). cbn in HF. tauto.
   Qed.
 
   Theorem newest_never_archived stale w w' evs r n pbp ur :
-    NoDup (map sname (dw_sets w)) -> dep_pass hash fault slices sliceaware rev0ok stale w = (w', evs, r) -> In (DUpdate n LArchived pbp ur) evs ->
+    NoDup (map sname (dw_sets w)) -> dep_pass_sh hash fault slices sliceaware rev0ok stale w = (w', evs, r) -> In (DUpdate n LArchived pbp ur) evs ->
     exists l0 newest, listed stale w = l0 ++ [newest] /\ sname newest <> n.
   Proof.
-    intros Hnd Hp Hin. apply (archivable_not_newest (seen_objects slices sliceaware)); [now apply listed_nodup|]. eapply archive_sound; eauto.
+    intros Hnd Hp Hin. apply (archivable_not_newest (seen_objects_sh slices sliceaware)); [now apply listed_nodup|]. eapply archive_sound; eauto.
   Qed.
 
   Lemma firstn_in {A} (l : list A) : forall k x, In x (firstn k l) -> In x l.
@@ -844,7 +844,7 @@ Section PassTheorems.
   Proof. now rewrite removelast_app, app_nil_r by discriminate. Qed.
 
   Theorem gc_sound stale w w' evs r n dr :
-    NoDup (map sname (dw_sets w)) -> dep_pass hash fault slices sliceaware rev0ok stale w = (w', evs, r) -> In (DDelete n dr) evs ->
+    NoDup (map sname (dw_sets w)) -> dep_pass_sh hash fault slices sliceaware rev0ok stale w = (w', evs, r) -> In (DDelete n dr) evs ->
     exists l0 newest, listed stale w = l0 ++ [newest] /\
       In n (firstn (Z.to_nat (Z.of_nat (length l0) - match d_limit (dw_dep w) with Some l => l | None => 10 end)) (map sname l0)) /\
       sname newest <> n.
@@ -859,7 +859,7 @@ Section PassTheorems.
 
   (** ** C09, deployment level *)
   Theorem paused_hands_off stale w w' evs r e :
-    NoDup (map sname (dw_sets w)) -> dep_pass hash fault slices sliceaware rev0ok stale w = (w', evs, r) -> d_paused (dw_dep w) = true -> In e evs ->
+    NoDup (map sname (dw_sets w)) -> dep_pass_sh hash fault slices sliceaware rev0ok stale w = (w', evs, r) -> d_paused (dw_dep w) = true -> In e evs ->
     (exists n ur s, e = DUpdate n LPaused true ur /\ In s (listed stale w) /\ sname s = n /\ is_archived s = false /\ paused_by_parent s = false) \/
     (exists h cc cs rv co sr, e = DStatus h cc cs rv co sr /\ cc = d_cc (dw_dep w)).
   Proof.
@@ -873,7 +873,7 @@ Section PassTheorems.
   Qed.
 
   Theorem unpause_releases_annotated stale w w' evs r n pbp ur :
-    NoDup (map sname (dw_sets w)) -> dep_pass hash fault slices sliceaware rev0ok stale w = (w', evs, r) -> In (DUpdate n LActive pbp ur) evs ->
+    NoDup (map sname (dw_sets w)) -> dep_pass_sh hash fault slices sliceaware rev0ok stale w = (w', evs, r) -> In (DUpdate n LActive pbp ur) evs ->
     d_paused (dw_dep w) = false /\ pbp = false /\
     exists s, In s (listed stale w) /\ sname s = n /\ is_archived s = false /\ is_spec_paused s = true /\ ds_pbp s = true.
   Proof.
@@ -942,15 +942,15 @@ Section Reach.
   Qed.
 
   Lemma to_archive_reach st0' : forall rl st mem st' mem' l,
-    reach st0' st -> to_archive fault slices sliceaware st mem rl = (st', mem', l) -> reach st0' st'.
+    reach st0' st -> to_archive_sh fault slices sliceaware st mem rl = (st', mem', l) -> reach st0' st'.
   Proof.
     induction rl as [|cur rest IH]; intros st mem st' mem' l Hr H; [cbn in H; now injection H as <- _ _|].
-    cbn [to_archive] in H. destruct (is_available cur); [eapply archive_all_later_reach; eauto|].
+    cbn [to_archive_sh] in H. destruct (is_available cur); [eapply archive_all_later_reach; eauto|].
     destruct rest as [|prev rest']; [now injection H as <- _ _|].
     destruct (is_archived prev); [eapply IH; eauto|]. destruct (srev cur <=? srev prev)%Z; [eapply IH; eauto|].
-    destruct (intermediate fault slices sliceaware st mem prev cur) as [[st1 mem1] b] eqn:Ei.
-    destruct (to_archive fault slices sliceaware st1 mem1 (prev :: rest')) as [[st2 mem2] l2] eqn:Et. injection H as <- _ _.
-    eapply IH; [|exact Et]. unfold intermediate in Ei.
+    destruct (intermediate_sh fault slices sliceaware st mem prev cur) as [[st1 mem1] b] eqn:Ei.
+    destruct (to_archive_sh fault slices sliceaware st1 mem1 (prev :: rest')) as [[st2 mem2] l2] eqn:Et. injection H as <- _ _.
+    eapply IH; [|exact Et]. unfold intermediate_sh in Ei.
     set (st0 := if sliceaware then load_slices_req fault slices st cur else st) in Ei.
     assert (H0 : reach st0' st0).
     { unfold st0. destruct sliceaware; [|assumption]. unfold load_slices_req. clear Ei st0. generalize (slice_refs cur). intros refs. revert st Hr.
@@ -974,22 +974,22 @@ Section Reach.
   Qed.
 
   Lemma archive_reach st0 st d has_cur mem st' mem' :
-    reach st0 st -> archive fault slices sliceaware st d has_cur mem = (st', mem') -> reach st0 st'.
+    reach st0 st -> archive_sh fault slices sliceaware st d has_cur mem = (st', mem') -> reach st0 st'.
   Proof.
-    unfold archive. intros Hr. destruct has_cur; cbn [negb]; [|intros H; now injection H as <- _].
-    destruct (to_archive fault slices sliceaware st mem (rev mem)) as [[st1 mem1] names] eqn:Et. intros Hm.
+    unfold archive_sh. intros Hr. destruct has_cur; cbn [negb]; [|intros H; now injection H as <- _].
+    destruct (to_archive_sh fault slices sliceaware st mem (rev mem)) as [[st1 mem1] names] eqn:Et. intros Hm.
     eapply mark_reach; [|exact Hm]. eapply to_archive_reach; eauto.
   Qed.
 
   Lemma new_revision_reach st0 st d cur prev st' d' :
-    reach st0 st -> new_revision fault rev0ok st d cur prev = (st', d') -> reach st0 st'.
+    reach st0 st -> new_revision_sh fault rev0ok st d cur prev = (st', d') -> reach st0 st'.
   Proof.
-    unfold new_revision. intros Hr. destruct cur; [intros H; now injection H as <- _|].
+    unfold new_revision_sh. intros Hr. destruct cur; [intros H; now injection H as <- _|].
     destruct (is_nil (d_phases d)); [intros H; now injection H as <- _|].
     destruct (create_req fault st (new_set d prev)) as [st1 r] eqn:Ec.
     assert (H1 : reach st0 st1) by (replace st1 with (fst (create_req fault st (new_set d prev))) by (now rewrite Ec); now constructor).
     destruct r; try (intros H; now injection H as <- _).
-    destruct (find_dset _ _); [destruct (adoptable rev0ok d prev d0)|]; intros H; injection H as <- _; now constructor.
+    destruct (find_dset _ _); [destruct (adoptable_sh rev0ok d prev d0)|]; intros H; injection H as <- _; now constructor.
   Qed.
 
   (** ** The frame of a pass: [es] are the events emitted between the two states *)
@@ -1231,7 +1231,7 @@ Section PassFrame.
   (** What one pass does to the world: ObjectSets keep their identity fields, only garbage-collected ones
       disappear, at most the ObjectSet of a successful create appears; member objects are never touched. *)
   Theorem dep_pass_frame stale w w' evs r :
-    dep_pass hash fault slices sliceaware rev0ok stale w = (w', evs, r) ->
+    dep_pass_sh hash fault slices sliceaware rev0ok stale w = (w', evs, r) ->
     (NoDup (map sname (dw_sets w)) -> NoDup (map sname (dw_sets w'))) /\
     (forall x', In x' (dw_sets w') -> (exists x, In x (dw_sets w) /\ sid x' = sid x) \/ created evs x') /\
     (forall x, In x (dw_sets w) -> (forall dr, ~ In (DDelete (sname x) dr) evs) ->
@@ -1517,7 +1517,7 @@ Section PassBump.
 
   (** The collision counter changes only in a pass whose Create was answered AlreadyExists. *)
   Lemma dep_pass_bump stale w w' evs r h cc cs rv co sr :
-    dep_pass hash fault slices sliceaware rev0ok stale w = (w', evs, r) -> In (DStatus h cc cs rv co sr) evs ->
+    dep_pass_sh hash fault slices sliceaware rev0ok stale w = (w', evs, r) -> In (DStatus h cc cs rv co sr) evs ->
     cc = d_cc (dw_dep w) \/
     (cc = bump_cc (d_cc (dw_dep w)) /\ forall n phs prev hh cr, In (DCreate n phs prev hh cr) evs -> cr = CrExists).
   Proof.
@@ -1837,7 +1837,7 @@ Section Histories.
   Proof. intros (r & H & _). now exists r. Qed.
 
   Lemma inv_dep_pass fault w w' evs r :
-    Inv w -> dep_pass hash fault slices sliceaware rev0ok false w = (w', evs, r) -> Inv w'.
+    Inv w -> dep_pass_sh hash fault slices sliceaware rev0ok false w = (w', evs, r) -> Inv w'.
   Proof.
     intros [U1 U2 U3] Hp. destruct (dep_pass_frame _ _ _ _ _ _ _ _ _ _ Hp) as (Hnd & Hold & _).
     assert (Hcr : forall x', created evs x' -> srev x' = 0%Z /\ ds_sel x' = true /\
@@ -1882,11 +1882,11 @@ Section Histories.
 
   Lemma do_step_oset w s :
     Inv w -> ok_step s -> (forall st f, s <> SDep st f) ->
-    oset_step (dw_sets w) (dw_sets (do_step hash slices sliceaware rev0ok w s)) /\
-    ((forall dg phs, s <> SEdit dg phs) -> d_digest (dw_dep (do_step hash slices sliceaware rev0ok w s)) = d_digest (dw_dep w)) /\
-    d_cc (dw_dep (do_step hash slices sliceaware rev0ok w s)) = d_cc (dw_dep w).
+    oset_step (dw_sets w) (dw_sets (do_step_sh hash slices sliceaware rev0ok w s)) /\
+    ((forall dg phs, s <> SEdit dg phs) -> d_digest (dw_dep (do_step_sh hash slices sliceaware rev0ok w s)) = d_digest (dw_dep w)) /\
+    d_cc (dw_dep (do_step_sh hash slices sliceaware rev0ok w s)) = d_cc (dw_dep w).
   Proof.
-    intros HI Hok Hnd. pose proof (i_nodup _ HI) as U1. destruct s; cbn [do_step].
+    intros HI Hok Hnd. pose proof (i_nodup _ HI) as U1. destruct s; cbn [do_step_sh].
     - rewrite edit_dep_sets. split; [apply oset_step_refl|]. split; [intros H; now elim (H dg phs)|]. unfold edit_dep. destruct (negb _ || negb _); reflexivity.
     - rewrite edit_dep_sets. split; [apply oset_step_refl|]. split; intros; unfold edit_dep; destruct (negb _); reflexivity.
     - rewrite edit_dep_sets. split; [apply oset_step_refl|]. split; intros; unfold edit_dep; destruct (negb _); reflexivity.
@@ -1909,17 +1909,17 @@ Section Histories.
       destruct (o_avail o =? avail); split; try apply oset_step_refl; auto.
   Qed.
 
-  Theorem inv_step w s : Inv w -> ok_step s -> Inv (do_step hash slices sliceaware rev0ok w s).
+  Theorem inv_step w s : Inv w -> ok_step s -> Inv (do_step_sh hash slices sliceaware rev0ok w s).
   Proof.
     intros HI Hok. destruct s as [dg phs|b|l|stale fault|force n|n|n cs co coset|n|k a];
       try (eapply inv_oset_step; [exact HI|]; apply do_step_oset; auto; intros st f; discriminate).
-    - cbn in Hok. subst stale. cbn [do_step]. destruct (dep_pass hash fault slices sliceaware rev0ok false w) as [[w' evs] r] eqn:Ep. eapply inv_dep_pass; eauto.
+    - cbn in Hok. subst stale. cbn [do_step_sh]. destruct (dep_pass_sh hash fault slices sliceaware rev0ok false w) as [[w' evs] r] eqn:Ep. eapply inv_dep_pass; eauto.
   Qed.
 
   (** Revision numbers: never changed by the deployment controller; by the ObjectSet side only from 0 to a number
       greater than the revision of every other ObjectSet of the deployment. *)
   Theorem revisions_of_step w s x x' :
-    Inv w -> ok_step s -> In x (dw_sets w) -> In x' (dw_sets (do_step hash slices sliceaware rev0ok w s)) -> sname x' = sname x ->
+    Inv w -> ok_step s -> In x (dw_sets w) -> In x' (dw_sets (do_step_sh hash slices sliceaware rev0ok w s)) -> sname x' = sname x ->
     srev x' = srev x \/
     (srev x = 0%Z /\ srev x' <> 0%Z /\
      (ds_sel x = true -> forall b, In b (dw_sets w) -> ds_sel b = true -> sname b <> sname x -> (srev b < srev x')%Z)) \/
@@ -1932,7 +1932,7 @@ Section Histories.
            assert (x0 = x) by (apply (NoDup_map_eq sname (dw_sets w)); auto; congruence); subst x0;
            destruct R0 as [R0|(R00 & R0n & R0b)]; [left; exact R0|right; left; split; [assumption|]; split; [assumption|];
              intros Hsel bb Hb Hsb Hne; apply R0b; [assumption|]; apply (i_zero _ HI x bb); auto]).
-    - cbn in Hok. subst stale. cbn [do_step] in Hx'. destruct (dep_pass hash fault slices sliceaware rev0ok false w) as [[w' evs] r] eqn:Ep.
+    - cbn in Hok. subst stale. cbn [do_step_sh] in Hx'. destruct (dep_pass_sh hash fault slices sliceaware rev0ok false w) as [[w' evs] r] eqn:Ep.
       destruct (dep_pass_frame _ _ _ _ _ _ _ _ _ _ Ep) as (_ & Hold & _).
       destruct (Hold x' Hx') as [(x0 & Hx0 & E0)|(rr & _ & _ & R0 & _)].
       + assert (E' : sname x' = sname x0 /\ srev x' = srev x0) by (unfold sid in E0; injection E0; auto). destruct E' as (N0 & R0).
@@ -1940,7 +1940,7 @@ Section Histories.
       + right. right. exists false, fault. auto.
   Qed.
 
-  Theorem inv_run h : forall w, Inv w -> Forall ok_step h -> Inv (run hash slices sliceaware rev0ok w h).
+  Theorem inv_run h : forall w, Inv w -> Forall ok_step h -> Inv (run_sh hash slices sliceaware rev0ok w h).
   Proof.
     induction h as [|s r IH]; cbn; intros w HI HF; [assumption|]. inversion HF; subst. apply IH; [now apply inv_step|assumption].
   Qed.
@@ -1986,7 +1986,7 @@ Section ExactlyOne.
   (** While the template is matched, a pass neither creates an ObjectSet nor touches the collision counter,
       and the template stays matched. *)
   Lemma matched_dep_pass fault w w' evs r :
-    Inv w -> matched w -> dep_pass hash fault slices sliceaware rev0ok false w = (w', evs, r) ->
+    Inv w -> matched w -> dep_pass_sh hash fault slices sliceaware rev0ok false w = (w', evs, r) ->
     (forall n phs prev h cr, ~ In (DCreate n phs prev h cr) evs) /\ matched w'.
   Proof.
     intros HI (s & Hs & Hsel & Hh & Hdel & Hmax) Hp. pose proof (i_nodup _ HI) as U1.
@@ -2033,7 +2033,7 @@ Section ExactlyOne.
 
   (** A pass that creates an ObjectSet leaves the template matched. *)
   Lemma creating_pass_matches fault w w' evs r n :
-    Inv w -> dep_pass hash fault slices sliceaware rev0ok false w = (w', evs, r) -> created_name evs = Some n -> matched w'.
+    Inv w -> dep_pass_sh hash fault slices sliceaware rev0ok false w = (w', evs, r) -> created_name evs = Some n -> matched w'.
   Proof.
     intros HI Hp Hcn. pose proof (i_nodup _ HI) as U1.
     destruct (created_name_some _ _ Hcn) as (phs & prev & h & cr & Hi & Hcr).
@@ -2075,29 +2075,29 @@ Section ExactlyOne.
   Qed.
 
   (** *** Counting creations and template changes along a history *)
-  Definition creates_b (w : dworld) (s : step) : bool :=
+  Definition creates_b_sh (w : dworld) (s : step) : bool :=
     match s with
-    | SDep stale fault => let '(_, evs, _) := dep_pass hash fault slices sliceaware rev0ok stale w in match created_name evs with Some _ => true | None => false end
+    | SDep stale fault => let '(_, evs, _) := dep_pass_sh hash fault slices sliceaware rev0ok stale w in match created_name evs with Some _ => true | None => false end
     | _ => false
     end.
-  Definition changes_b (w : dworld) (s : step) : bool :=
+  Definition changes_b_sh (w : dworld) (s : step) : bool :=
     match s with
     | SEdit dg phs => negb (dg =? d_digest (dw_dep w)) || negb (phases_eqb phs (d_phases (dw_dep w)))
     | _ => false
     end.
-  Fixpoint count_creates (w : dworld) (h : list step) : nat :=
-    match h with [] => O | s :: r => ((if creates_b w s then 1 else 0) + count_creates (do_step hash slices sliceaware rev0ok w s) r)%nat end.
-  Fixpoint count_changes (w : dworld) (h : list step) : nat :=
-    match h with [] => O | s :: r => ((if changes_b w s then 1 else 0) + count_changes (do_step hash slices sliceaware rev0ok w s) r)%nat end.
+  Fixpoint count_creates_sh (w : dworld) (h : list step) : nat :=
+    match h with [] => O | s :: r => ((if creates_b_sh w s then 1 else 0) + count_creates_sh (do_step_sh hash slices sliceaware rev0ok w s) r)%nat end.
+  Fixpoint count_changes_sh (w : dworld) (h : list step) : nat :=
+    match h with [] => O | s :: r => ((if changes_b_sh w s then 1 else 0) + count_changes_sh (do_step_sh hash slices sliceaware rev0ok w s) r)%nat end.
 
-  Lemma matched_step w s : Inv w -> matched w -> ok_step s -> changes_b w s = false ->
-    creates_b w s = false /\ matched (do_step hash slices sliceaware rev0ok w s).
+  Lemma matched_step w s : Inv w -> matched w -> ok_step s -> changes_b_sh w s = false ->
+    creates_b_sh w s = false /\ matched (do_step_sh hash slices sliceaware rev0ok w s).
   Proof.
     intros HI HM Hok Hch. destruct s as [dg phs|b|l|stale fault|force n|n|n cs co coset|n|k a].
-    - split; [reflexivity|]. cbn in Hch. cbn [do_step]. rewrite Hch. exact HM.
+    - split; [reflexivity|]. cbn in Hch. cbn [do_step_sh]. rewrite Hch. exact HM.
     - split; [reflexivity|]. eapply matched_oset_step; eauto; apply (do_step_oset hash slices sliceaware rev0ok w (SPause b)); auto; intros; discriminate.
     - split; [reflexivity|]. eapply matched_oset_step; eauto; apply (do_step_oset hash slices sliceaware rev0ok w (SLimit l)); auto; intros; discriminate.
-    - cbn in Hok. subst stale. cbn [creates_b do_step]. destruct (dep_pass hash fault slices sliceaware rev0ok false w) as [[w' evs] r] eqn:Ep.
+    - cbn in Hok. subst stale. cbn [creates_b_sh do_step_sh]. destruct (dep_pass_sh hash fault slices sliceaware rev0ok false w) as [[w' evs] r] eqn:Ep.
       destruct (matched_dep_pass _ _ _ _ _ HI HM Ep) as (Hnc & HM'). split; [|exact HM'].
       destruct (created_name evs) as [n|] eqn:Ec; [|reflexivity].
       destruct (created_name_some _ _ Ec) as (a & b & c & d & Hi & _). elim (Hnc _ _ _ _ _ Hi).
@@ -2108,25 +2108,30 @@ Section ExactlyOne.
     - split; [reflexivity|]. eapply matched_oset_step; eauto; apply (do_step_oset hash slices sliceaware rev0ok w (SMember k a)); auto; intros; discriminate.
   Qed.
 
-  Lemma creating_step_matches w s : Inv w -> ok_step s -> creates_b w s = true -> matched (do_step hash slices sliceaware rev0ok w s).
+  Lemma creating_step_matches w s : Inv w -> ok_step s -> creates_b_sh w s = true -> matched (do_step_sh hash slices sliceaware rev0ok w s).
   Proof.
-    intros HI Hok Hc. destruct s; try discriminate. cbn in Hok. subst stale. cbn [creates_b do_step] in *.
-    destruct (dep_pass hash fault slices sliceaware rev0ok false w) as [[w' evs] r] eqn:Ep. destruct (created_name evs) as [n|] eqn:Ec; [|discriminate].
+    intros HI Hok Hc. destruct s; try discriminate. cbn in Hok. subst stale. cbn [creates_b_sh do_step_sh] in *.
+    destruct (dep_pass_sh hash fault slices sliceaware rev0ok false w) as [[w' evs] r] eqn:Ep. destruct (created_name evs) as [n|] eqn:Ec; [|discriminate].
     eapply creating_pass_matches; eauto.
   Qed.
 
   Lemma creates_bounded h : forall w, Inv w -> Forall ok_step h ->
-    (matched w -> (count_creates w h <= count_changes w h)%nat) /\ (count_creates w h <= 1 + count_changes w h)%nat.
+    (matched w -> (count_creates_sh w h <= count_changes_sh w h)%nat) /\ (count_creates_sh w h <= 1 + count_changes_sh w h)%nat.
   Proof.
     induction h as [|s r IH]; intros w HI HF; [cbn; split; intros; lia|]. inversion HF as [|? ? Hok HFr]; subst.
-    pose proof (inv_step hash slices sliceaware rev0ok w s HI Hok) as HI'. destruct (IH _ HI' HFr) as (IHm & IHb). cbn [count_creates count_changes].
-    destruct (changes_b w s) eqn:Ech.
-    - assert (Hnc : creates_b w s = false) by (destruct s; try reflexivity; discriminate). rewrite Hnc. split; intros; lia.
+    pose proof (inv_step hash slices sliceaware rev0ok w s HI Hok) as HI'. destruct (IH _ HI' HFr) as (IHm & IHb). cbn [count_creates_sh count_changes_sh].
+    destruct (changes_b_sh w s) eqn:Ech.
+    - assert (Hnc : creates_b_sh w s = false) by (destruct s; try reflexivity; discriminate). rewrite Hnc. split; intros; lia.
     - split.
       + intros HM. destruct (matched_step w s HI HM Hok Ech) as (-> & HM'). specialize (IHm HM'). lia.
-      + destruct (creates_b w s) eqn:Ecr; [|lia]. pose proof (creating_step_matches w s HI Hok Ecr) as HM'. specialize (IHm HM'). lia.
+      + destruct (creates_b_sh w s) eqn:Ecr; [|lia]. pose proof (creating_step_matches w s HI Hok Ecr) as HM'. specialize (IHm HM'). lia.
   Qed.
 End ExactlyOne.
+
+Definition count_creates hash slices := count_creates_sh hash slices true true.
+Definition count_changes hash slices := count_changes_sh hash slices true true.
+Definition count_creates_v0 hash slices := count_creates_sh hash slices false false.
+Definition count_changes_v0 hash slices := count_changes_sh hash slices false false.
 
 (** * Part 6: fault-free passes (existence / exactness statements) *)
 Section NoFault.
@@ -2196,7 +2201,7 @@ Section NoFault.
   (** C09: a pass of a paused deployment, all revisions reported: exactly the pause updates and the status. *)
   Theorem paused_pass_exact stale w w' evs r :
     NoDup (map sname (dw_sets w)) -> d_paused (dw_dep w) = true -> has_rev0 (listed stale w) = false ->
-    dep_pass hash fault slices sliceaware rev0ok stale w = (w', evs, r) ->
+    dep_pass_sh hash fault slices sliceaware rev0ok stale w = (w', evs, r) ->
     r = DpDone /\ exists h cc cs rv co,
       evs = map (pause_update true) (filter (needs_pause_update true) (listed stale w)) ++ [DStatus h cc cs rv co WOk].
   Proof.
@@ -2216,7 +2221,7 @@ Section NoFault.
   (** C09: unpausing releases exactly the non-archived revisions carrying the paused-by-parent state. *)
   Theorem unpause_exact stale w w' evs r :
     NoDup (map sname (dw_sets w)) -> d_paused (dw_dep w) = false -> has_rev0 (listed stale w) = false ->
-    dep_pass hash fault slices sliceaware rev0ok stale w = (w', evs, r) ->
+    dep_pass_sh hash fault slices sliceaware rev0ok stale w = (w', evs, r) ->
     exists rest, evs = map (pause_update false) (filter (needs_pause_update false) (listed stale w)) ++ rest /\
                  forall n life pbp ur, In (DUpdate n life pbp ur) rest -> life <> LActive.
   Proof.
@@ -2308,7 +2313,7 @@ Section NoFault.
     NoDup (map sname (dw_sets w)) -> d_paused (dw_dep w) = false -> d_phases (dw_dep w) <> [] ->
     has_rev0 (listed stale w) = false -> has_current (dep_hashed hash w) (listed stale w) = false ->
     find_dset (dw_sets w) (hash (d_digest (dw_dep w)) (d_cc (dw_dep w))) = None ->
-    dep_pass hash fault slices sliceaware rev0ok stale w = (w', evs, r) ->
+    dep_pass_sh hash fault slices sliceaware rev0ok stale w = (w', evs, r) ->
     In (DCreate (hash (d_digest (dw_dep w)) (d_cc (dw_dep w))) (d_phases (dw_dep w)) (map sname (listed stale w))
                 (hash (d_digest (dw_dep w)) (d_cc (dw_dep w))) CrOk) evs.
   Proof.
@@ -2324,11 +2329,11 @@ Section NoFault.
       assert (sname x' = sname x) by (unfold sid in E; congruence). rewrite H. now apply (find_dset_none _ _ Hfree). }
     assert (Hnn : is_nil (d_phases (dep_hashed hash w)) = false).
     { change (d_phases (dep_hashed hash w)) with (d_phases (dw_dep w)). destruct (d_phases (dw_dep w)); [now elim Hph|reflexivity]. }
-    unfold new_revision in Enr. rewrite Hnn in Enr.
+    unfold new_revision_sh in Enr. rewrite Hnn in Enr.
     unfold create_req in Enr. rewrite Hal in Enr. cbn [fault_now fault] in Enr.
     change (sname (new_set (dep_hashed hash w) mem)) with (hash (d_digest (dw_dep w)) (d_cc (dw_dep w))) in Enr. rewrite Hfree' in Enr.
     cbn [new_set ds_set os_phases os_prev ds_hash] in Enr. injection Enr as <- <-.
-    rewrite Hhc in Ear. unfold archive in Ear. cbn [negb] in Ear. injection Ear as <- <-.
+    rewrite Hhc in Ear. unfold archive_sh in Ear. cbn [negb] in Ear. injection Ear as <- <-.
     apply status_req_mono. cbn [emit p_evs]. apply in_or_app. right. left.
     rewrite (Forall2_same_core_names _ _ HF). reflexivity.
   Qed.
@@ -2355,7 +2360,7 @@ Section NoFault.
     (is_archived c = true \/ phases_eqb (d_phases (dw_dep w)) (os_phases (ds_set c)) = false \/
      ds_ctrl c <> oi_uid (d_id (dw_dep w)) \/
      ((srev c < latest_revision (listed stale w))%Z /\ (rev0ok = false \/ srev c <> 0%Z))) ->
-    dep_pass hash fault slices sliceaware rev0ok stale w = (w', evs, r) ->
+    dep_pass_sh hash fault slices sliceaware rev0ok stale w = (w', evs, r) ->
     r = DpDone /\ created_name evs = None /\
     In (DCreate (sname c) (d_phases (dw_dep w)) (map sname (listed stale w)) (sname c) CrExists) evs /\
     d_cc (dw_dep w') = bump_cc (d_cc (dw_dep w)) /\
@@ -2370,33 +2375,33 @@ Section NoFault.
     rewrite Hhc, split_current_false in Enr. cbn [fst snd] in Enr.
     set (d1 := dep_hashed hash w) in *. set (h := hash (d_digest (dw_dep w)) (d_cc (dw_dep w))) in *.
     (* the holder after the pause propagation *)
-    assert (Hc1 : exists c1, find_dset (dw_sets (p_w stp)) h = Some c1 /\ sid c1 = sid c /\ adoptable rev0ok d1 mem c1 = false).
+    assert (Hc1 : exists c1, find_dset (dw_sets (p_w stp)) h = Some c1 /\ sid c1 = sid c /\ adoptable_sh rev0ok d1 mem c1 = false).
     { destruct (Hkeep c Hc) as (c' & Hc' & Ec').
       assert (En' : sname c' = h) by (unfold sid in Ec'; injection Ec'; intros; congruence).
       assert (Efields : srev c' = srev c /\ ds_ctrl c' = ds_ctrl c /\ os_phases (ds_set c') = os_phases (ds_set c)) by (unfold sid in Ec'; injection Ec'; auto).
       destruct Efields as (Er & Ect & Eph).
       destruct Hwhy as [Ha|[Hs|[Hct|(Hr & Hr0)]]].
       - pose proof (Harch c Hc Ha) as Hin. exists c. split; [rewrite <- Hn; now apply nodup_find|]. split; [reflexivity|].
-        unfold adoptable. now rewrite Ha.
+        unfold adoptable_sh. now rewrite Ha.
       - exists c'. split; [rewrite <- En'; now apply nodup_find|]. split; [assumption|].
-        unfold adoptable. rewrite Eph. change (d_phases d1) with (d_phases (dw_dep w)). rewrite Hs. now rewrite !andb_false_r.
+        unfold adoptable_sh. rewrite Eph. change (d_phases d1) with (d_phases (dw_dep w)). rewrite Hs. now rewrite !andb_false_r.
       - exists c'. split; [rewrite <- En'; now apply nodup_find|]. split; [assumption|].
-        unfold adoptable. rewrite Ect. change (d_id d1) with (d_id (dw_dep w)).
+        unfold adoptable_sh. rewrite Ect. change (d_id d1) with (d_id (dw_dep w)).
         assert ((ds_ctrl c =? oi_uid (d_id (dw_dep w))) = false) by now apply N.eqb_neq. rewrite H. now rewrite !andb_false_r.
       - exists c'. split; [rewrite <- En'; now apply nodup_find|]. split; [assumption|].
-        unfold adoptable. rewrite Er, <- (latest_revision_core _ _ HF).
+        unfold adoptable_sh. rewrite Er, <- (latest_revision_core _ _ HF).
         assert ((latest_revision (listed stale w) <=? srev c)%Z = false) by (apply Z.leb_gt; lia). rewrite H.
         assert ((rev0ok && (srev c =? 0)%Z) = false) by (destruct Hr0 as [-> |Hr0]; [reflexivity|apply Z.eqb_neq in Hr0; rewrite Hr0; apply andb_false_r]).
         rewrite H1. cbn. now rewrite andb_false_r. }
     destruct Hc1 as (c1 & Hf1 & Es1 & Had).
     assert (Hnn : is_nil (d_phases d1) = false).
     { change (d_phases d1) with (d_phases (dw_dep w)). destruct (d_phases (dw_dep w)); [now elim Hph|reflexivity]. }
-    unfold new_revision in Enr. rewrite Hnn in Enr. unfold create_req in Enr. rewrite Hal in Enr. cbn [fault_now fault] in Enr.
+    unfold new_revision_sh in Enr. rewrite Hnn in Enr. unfold create_req in Enr. rewrite Hal in Enr. cbn [fault_now fault] in Enr.
     change (sname (new_set d1 mem)) with h in Enr. rewrite Hf1 in Enr.
     cbn [new_set ds_set os_phases os_prev ds_hash] in Enr.
     unfold read_req in Enr. cbn [emit p_dead fault_now fault p_w] in Enr. change (d_hash d1) with h in Enr. rewrite Hf1, Had in Enr.
     injection Enr as <- <-.
-    rewrite Hhc in Ear. unfold archive in Ear. cbn [negb] in Ear. injection Ear as <- <-.
+    rewrite Hhc in Ear. unfold archive_sh in Ear. cbn [negb] in Ear. injection Ear as <- <-.
     match goal with |- context [status_req fault ?st ?d] => destruct (status_req_ok st d eq_refl) as (Hal4 & He4 & Hd4 & Hs4) end.
     rewrite Hal4, He4. cbn [emit p_evs p_w] in *. rewrite app_nil_r in *.
     split; [reflexivity|]. split.
@@ -2479,28 +2484,28 @@ Section Witness.
     - intros a b [<-|[]] [<-|[]] _ _ H. now elim H.
   Qed.
 
-  (** F-C07: the create is not yet listed, the ObjectSet has not reported its revision, the Get sees it:
+  (** F-C07 (before 0384cff): the create is not yet listed, the ObjectSet has not reported its revision, the Get sees it:
       treated as a hash collision; after the ObjectSet reported its revision a second ObjectSet is created for
       the unchanged template. *)
   Definition wit_stale_history : list step :=
     [SDep false None; SDep true None; SRev 100; SDep false None].
 
   Lemma wit_two_creates :
-    count_creates wit_hash no_slices false false wit_w0 wit_stale_history = 2%nat /\
-    count_changes wit_hash no_slices false false wit_w0 wit_stale_history = 0%nat /\
-    map (fun s => (sname s, srev s, phases_eqb (os_phases (ds_set s)) tmpl1)) (dw_sets (run wit_hash no_slices false false wit_w0 wit_stale_history)) =
+    count_creates_v0 wit_hash no_slices wit_w0 wit_stale_history = 2%nat /\
+    count_changes_v0 wit_hash no_slices wit_w0 wit_stale_history = 0%nat /\
+    map (fun s => (sname s, srev s, phases_eqb (os_phases (ds_set s)) tmpl1)) (dw_sets (run_v0 wit_hash no_slices wit_w0 wit_stale_history)) =
       [(200, 1%Z, false); (100, 2%Z, true); (101, 0%Z, true)].
   Proof. vm_compute. repeat split. Qed.
 
   (** Without the stale List the same schedule creates one ObjectSet. *)
   Lemma wit_fresh_one_create :
-    count_creates wit_hash no_slices false false wit_w0 [SDep false None; SDep false None; SRev 100; SDep false None] = 1%nat.
+    count_creates wit_hash no_slices wit_w0 [SDep false None; SDep false None; SRev 100; SDep false None] = 1%nat.
   Proof. vm_compute. reflexivity. Qed.
 
-  (** With the repaired "slow cache" test the same schedule creates one ObjectSet and bumps nothing. *)
+  (** The code as it is (0384cff) creates one ObjectSet on the same schedule and bumps nothing. *)
   Lemma wit_stale_repaired :
-    count_creates wit_hash no_slices false true wit_w0 wit_stale_history = 1%nat /\
-    d_cc (dw_dep (run wit_hash no_slices false true wit_w0 wit_stale_history)) = None.
+    count_creates wit_hash no_slices wit_w0 wit_stale_history = 1%nat /\
+    d_cc (dw_dep (run wit_hash no_slices wit_w0 wit_stale_history)) = None.
   Proof. vm_compute. split; reflexivity. Qed.
 
   (** The template is edited while the created ObjectSet is not yet listed: two ObjectSets with the same
@@ -2509,7 +2514,7 @@ Section Witness.
     [SDep false None; SEdit 3 tmpl3; SDep true None; SRev 100; SRev 300].
 
   Lemma wit_same_revision :
-    map (fun s => (sname s, srev s, os_prev (ds_set s))) (dw_sets (run wit_hash no_slices false false wit_w0 wit_edit_history)) =
+    map (fun s => (sname s, srev s, os_prev (ds_set s))) (dw_sets (run wit_hash no_slices wit_w0 wit_edit_history)) =
       [(200, 1%Z, []); (100, 2%Z, [200]); (300, 2%Z, [200])].
   Proof. vm_compute. reflexivity. Qed.
 
@@ -2520,12 +2525,12 @@ Section Witness.
 
   Lemma wit_rollback :
     map (fun s => (sname s, srev s, phases_eqb (os_phases (ds_set s)) tmpl1, os_prev (ds_set s)))
-        (dw_sets (run wit_hash no_slices false false wit_rollback_world [SDep false None; SDep false None; SRev 101])) =
+        (dw_sets (run wit_hash no_slices wit_rollback_world [SDep false None; SDep false None; SRev 101])) =
       [(100, 1%Z, true, []); (200, 2%Z, false, [100]); (101, 3%Z, true, [100; 200])] /\
-    d_cc (dw_dep (run wit_hash no_slices false false wit_rollback_world [SDep false None])) = Some 1.
+    d_cc (dw_dep (run wit_hash no_slices wit_rollback_world [SDep false None])) = Some 1.
   Proof. vm_compute. split; reflexivity. Qed.
 
-  (** C08 with ObjectSlices (second half of F-C14): revision 1 (unavailable, confirmed paused) controls ConfigMap
+  (** C08 with ObjectSlices (second half of F-C14, before f07b836): revision 1 (unavailable, confirmed paused) controls ConfigMap
       n1; revision 2 keeps ConfigMap n1 in ObjectSlice 7. The getter as it is sees no objects in revision 2. *)
   Definition wit_slices : N -> option (list pobj) := fun n => if n =? 7 then Some [wit_pobj 1 1] else None.
   Definition wit_r1 : dset := wit_set 300 101 1 tmpl1 [] LPaused [c_paused] [wit_key 1].
@@ -2533,7 +2538,7 @@ Section Witness.
   Definition wit_sliced_world : dworld := wit_world (wit_dep 1 [wit_phase [wit_pobj KSliceRef 7]] None) [wit_r1; wit_r2].
 
   Lemma wit_sliced_archive :
-    let '(_, evs, _) := dep_pass wit_hash None wit_slices false false false wit_sliced_world in
+    let '(_, evs, _) := dep_pass_v0 wit_hash None wit_slices false wit_sliced_world in
     existsb (fun e => match e with DUpdate 300 LArchived _ WOk => true | _ => false end) evs = true /\
     listed false wit_sliced_world = [wit_r1; wit_r2] /\
     existsb (okey_eqb (wit_key 1)) (os_ctrlof (ds_set wit_r1)) = true /\
@@ -2542,7 +2547,7 @@ Section Witness.
   Proof. vm_compute. repeat split. Qed.
 
   Lemma wit_sliced_archive_repaired :
-    let '(_, evs, _) := dep_pass wit_hash None wit_slices true false false wit_sliced_world in
+    let '(_, evs, _) := dep_pass wit_hash None wit_slices false wit_sliced_world in
     existsb (fun e => match e with DUpdate _ LArchived _ _ => true | _ => false end) evs = false.
   Proof. vm_compute. reflexivity. Qed.
 
@@ -2555,53 +2560,54 @@ Section Witness.
        wit_set 300 103 3 tmpl3 [100; 200] LActive [] []].
 
   Lemma wit_gc_deletes_available :
-    let '(_, evs, _) := dep_pass wit_hash None no_slices false false false wit_gc_world in
+    let '(_, evs, _) := dep_pass wit_hash None no_slices false wit_gc_world in
     existsb (fun e => match e with DDelete 100 DlOk => true | _ => false end) evs = true /\
     existsb (fun e => match e with DUpdate 200 LArchived _ WOk => true | _ => false end) evs = true.
   Proof. vm_compute. split; reflexivity. Qed.
 End Witness.
 
-(** * Part 8: statements for props/C07.v and props/C08.v *)
-Theorem revisions_unique hash slices sliceaware rev0ok w0 h :
+(** * Part 8: statements for props/C07.v and props/C08.v: the code as it is, and the shapes before the fixes *)
+Theorem revisions_unique hash slices w0 h :
   Inv w0 -> Forall ok_step h ->
-  forall a b, In a (dw_sets (run hash slices sliceaware rev0ok w0 h)) -> In b (dw_sets (run hash slices sliceaware rev0ok w0 h)) ->
+  forall a b, In a (dw_sets (run hash slices w0 h)) -> In b (dw_sets (run hash slices w0 h)) ->
     ds_sel a = true -> ds_sel b = true -> sname a <> sname b -> srev a <> 0%Z -> srev a <> srev b.
-Proof. intros HI HF. exact (i_uniq _ (inv_run hash slices sliceaware rev0ok h w0 HI HF)). Qed.
+Proof. intros HI HF. exact (i_uniq _ (inv_run hash slices true true h w0 HI HF)). Qed.
 
+(** F-C07b (open): the template is edited inside the create-not-yet-listed window. *)
 Theorem revisions_unique_stale_refuted :
-  exists w0 h a b, Inv w0 /\ In a (dw_sets (run wit_hash no_slices false false w0 h)) /\ In b (dw_sets (run wit_hash no_slices false false w0 h)) /\
+  exists w0 h a b, Inv w0 /\ In a (dw_sets (run wit_hash no_slices w0 h)) /\ In b (dw_sets (run wit_hash no_slices w0 h)) /\
     ds_sel a = true /\ ds_sel b = true /\ sname a <> sname b /\ srev a <> 0%Z /\ srev a = srev b /\
     os_prev (ds_set a) = os_prev (ds_set b).
 Proof.
   exists wit_w0, wit_edit_history.
-  set (S := dw_sets (run wit_hash no_slices false false wit_w0 wit_edit_history)).
+  set (S := dw_sets (run wit_hash no_slices wit_w0 wit_edit_history)).
   exists (nth 1 S wit_old), (nth 2 S wit_old). split; [exact wit_w0_inv|]. vm_compute. repeat split; auto; discriminate.
 Qed.
 
-Theorem exactly_one_refuted :
-  exists w0 h, Inv w0 /\ count_changes wit_hash no_slices false false w0 h = 0%nat /\
-               count_creates wit_hash no_slices false false w0 h = 2%nat.
+(** F-C07, the slow-cache test before 0384cff: two ObjectSets for one unchanged template. *)
+Theorem exactly_one_v0_refuted :
+  exists w0 h, Inv w0 /\ count_changes_v0 wit_hash no_slices w0 h = 0%nat /\ count_creates_v0 wit_hash no_slices w0 h = 2%nat.
 Proof. exists wit_w0, wit_stale_history. split; [exact wit_w0_inv|]. destruct wit_two_creates as (H1 & H2 & _). auto. Qed.
 
-(** The archive rule with the repaired getter: the next newer revision's objects include its ObjectSlices. *)
-Theorem archive_sound_repaired hash fault slices rev0ok stale w w' evs r n pbp ur :
-  NoDup (map sname (dw_sets w)) -> dep_pass hash fault slices true rev0ok stale w = (w', evs, r) ->
+(** The archive rule: the next newer revision's objects include those of its ObjectSlices. *)
+Theorem archive_sound_now hash fault slices stale w w' evs r n pbp ur :
+  NoDup (map sname (dw_sets w)) -> dep_pass hash fault slices stale w = (w', evs, r) ->
   In (DUpdate n LArchived pbp ur) evs -> archivable (full_objects slices) (listed stale w) n.
-Proof. intros Hnd Hp Hi. exact (proj2 (archive_sound hash fault slices true rev0ok stale w w' evs r n pbp ur Hnd Hp Hi)). Qed.
+Proof. intros Hnd Hp Hi. exact (proj2 (archive_sound hash fault slices true true stale w w' evs r n pbp ur Hnd Hp Hi)). Qed.
 
-(** ... and with the getter as it is: only the inline objects of the next newer revision are looked at. *)
-Theorem archive_sound_inline hash fault slices rev0ok stale w w' evs r n pbp ur :
-  NoDup (map sname (dw_sets w)) -> dep_pass hash fault slices false rev0ok stale w = (w', evs, r) ->
+(** ... the getter before f07b836 looked at the inline objects of the next newer revision only. *)
+Theorem archive_sound_v0_inline hash fault slices stale w w' evs r n pbp ur :
+  NoDup (map sname (dw_sets w)) -> dep_pass_v0 hash fault slices stale w = (w', evs, r) ->
   In (DUpdate n LArchived pbp ur) evs -> archivable set_objects (listed stale w) n.
-Proof. intros Hnd Hp Hi. exact (proj2 (archive_sound hash fault slices false rev0ok stale w w' evs r n pbp ur Hnd Hp Hi)). Qed.
+Proof. intros Hnd Hp Hi. exact (proj2 (archive_sound hash fault slices false false stale w w' evs r n pbp ur Hnd Hp Hi)). Qed.
 
-Theorem archive_sound_refuted :
+Theorem archive_sound_v0_refuted :
   exists w slices evs w' r n pbp r1 r2 k,
-    dep_pass wit_hash None slices false false false w = (w', evs, r) /\ In (DUpdate n LArchived pbp WOk) evs /\
+    dep_pass_v0 wit_hash None slices false w = (w', evs, r) /\ In (DUpdate n LArchived pbp WOk) evs /\
     listed false w = [r1; r2] /\ sname r1 = n /\ In k (os_ctrlof (ds_set r1)) /\ In k (full_objects slices r2) /\
     is_available r2 = false /\ ~ archivable (full_objects slices) (listed false w) n.
 Proof.
-  destruct (dep_pass wit_hash None wit_slices false false false wit_sliced_world) as [[w' evs] r] eqn:Ep.
+  destruct (dep_pass_v0 wit_hash None wit_slices false wit_sliced_world) as [[w' evs] r] eqn:Ep.
   exists wit_sliced_world, wit_slices, evs, w', r, 300, false, wit_r1, wit_r2, (wit_key 1).
   split; [exact Ep|]. vm_compute in Ep. injection Ep as <- <- <-.
   split; [cbn; auto|]. split; [reflexivity|]. split; [reflexivity|]. split; [now left|]. split; [now left|]. split; [reflexivity|].
@@ -2613,6 +2619,52 @@ Proof.
     + injection Enx as <- <-. injection Hact as <-. apply (Hdis (wit_key 1)); now left.
   - injection EL as <- EL. destruct l1 as [|z l1]; cbn in EL; [injection EL as <- <-; now apply Hne|].
     injection EL as _ EL. destruct l1; discriminate.
+Qed.
+
+Theorem no_reuse_now hash slices stale w w' evs r c :
+  NoDup (map sname (dw_sets w)) -> d_paused (dw_dep w) = false -> d_phases (dw_dep w) <> [] ->
+  has_rev0 (listed stale w) = false -> has_current (dep_hashed hash w) (listed stale w) = false ->
+  In c (dw_sets w) -> sname c = hash (d_digest (dw_dep w)) (d_cc (dw_dep w)) ->
+  (is_archived c = true \/ phases_eqb (d_phases (dw_dep w)) (os_phases (ds_set c)) = false \/
+   ds_ctrl c <> oi_uid (d_id (dw_dep w)) \/
+   ((srev c < latest_revision (listed stale w))%Z /\ srev c <> 0%Z)) ->
+  dep_pass hash None slices stale w = (w', evs, r) ->
+  r = DpDone /\ created_name evs = None /\
+  In (DCreate (sname c) (d_phases (dw_dep w)) (map sname (listed stale w)) (sname c) CrExists) evs /\
+  d_cc (dw_dep w') = bump_cc (d_cc (dw_dep w)) /\
+  exists c', In c' (dw_sets w') /\ sid c' = sid c.
+Proof.
+  intros H1 H2 H3 H4 H5 H6 H7 H8 H9. apply (no_reuse hash slices true true stale w w' evs r c H1 H2 H3 H4 H5 H6 H7); [|exact H9].
+  destruct H8 as [H|[H|[H|[Ha Hb]]]]; auto. right. right. right. auto.
+Qed.
+
+(** ** The two shapes agree outside the repaired cases *)
+
+(** slow-cache test: only a name holder without a revision is judged differently *)
+Lemma adoptable_v0_agrees d prev c : srev c <> 0%Z -> adoptable d prev c = adoptable_v0 d prev c.
+Proof. intros H. unfold adoptable, adoptable_v0, adoptable_sh. apply Z.eqb_neq in H. now rewrite H. Qed.
+
+(** archive decision: only a revision that references ObjectSlices is judged differently *)
+Lemma seen_objects_v0_agrees slices s : slice_refs s = [] -> seen_objects slices s = seen_objects_v0 slices s.
+Proof. intros H. unfold seen_objects, seen_objects_v0, seen_objects_sh, full_objects. rewrite H. cbn. apply app_nil_r. Qed.
+
+Lemma intermediate_v0_agrees fault slices st mem prev cur :
+  slice_refs cur = [] -> intermediate_sh fault slices true st mem prev cur = intermediate_sh fault slices false st mem prev cur.
+Proof.
+  intros H. unfold intermediate_sh, load_slices_req. rewrite H. cbn [fold_left].
+  change (seen_objects_sh slices true cur) with (seen_objects slices cur). change (seen_objects_sh slices false cur) with (seen_objects_v0 slices cur).
+  now rewrite (seen_objects_v0_agrees slices cur H).
+Qed.
+
+Theorem to_archive_v0_agrees fault slices : forall rl st mem,
+  (forall s, In s rl -> slice_refs s = []) -> to_archive fault slices st mem rl = to_archive_v0 fault slices st mem rl.
+Proof.
+  unfold to_archive, to_archive_v0. induction rl as [|cur rest IH]; intros st mem H; [reflexivity|].
+  cbn [to_archive_sh]. destruct (is_available cur); [reflexivity|]. destruct rest as [|prev rest']; [reflexivity|].
+  assert (Hrest : forall s, In s (prev :: rest') -> slice_refs s = []) by (intros s Hs; apply H; now right).
+  destruct (is_archived prev); [now apply IH|]. destruct (srev cur <=? srev prev)%Z; [now apply IH|].
+  rewrite (intermediate_v0_agrees fault slices st mem prev cur (H cur (or_introl eq_refl))).
+  destruct (intermediate_sh fault slices false st mem prev cur) as [[st1 mem1] b]. now rewrite (IH st1 mem1 Hrest).
 Qed.
 
 (** * Part 9: the handover (system level, partial) *)
@@ -2646,9 +2698,9 @@ Section Handover.
     (os_deleting mem = true \/ os_life mem = LArchived) ->
     lookup k (w_store (dw_w w)) = Some o ->
     is_owner Native (os_id mem) o = false -> is_controller Native (os_id mem) o = false ->
-    lookup k (w_store (dw_w (do_step hash slices sliceaware rev0ok w (SSet force n)))) = Some o.
+    lookup k (w_store (dw_w (do_step_sh hash slices sliceaware rev0ok w (SSet force n)))) = Some o.
   Proof.
-    intros Hf Hg El Ho Hc. cbn [do_step].
+    intros Hf Hg El Ho Hc. cbn [do_step_sh].
     destruct (objectset_pass force (to_sworld w) (set_kind w) (oi_ns (d_id (dw_dep w))) n) as [[sw' evs] r] eqn:Ep. cbn [of_sworld dw_w].
     destruct (cond_true (os_conds mem) CArchived) eqn:Ea.
     - unfold objectset_pass in Ep. rewrite Hf, Ea in Ep. injection Ep as <- _ _. exact El.
